@@ -229,10 +229,16 @@ class C05:
         except BaseException as e:  # noqa
             out = (type(e).__name__, str(e)[:80])
         # end asynchronous !() objects
-        for v in list(self.ctx.values()):
+        for k, v in list(self.ctx.items()):
             if type(v).__name__ in ("CommandPipeline", "HiddenCommandPipeline"):
                 try:
-                    v.end()
+                    with harness.alarm(30):
+                        v.end()
+                except harness.CaseTimeout:
+                    # a pipeline that never ends is C06's listed livelock / deadlock race, not a chain-rule matter: drop the
+                    # object, report the case as a hang (re-tried by the caller, only judged when reproducible)
+                    self.ctx.pop(k, None)
+                    out = ("HANG", None)
                 except BaseException:  # noqa  (a stored !() object may raise here under CMD_RAISE)
                     pass
         settle(5)
